@@ -1523,3 +1523,46 @@ pub mod verif_test_list {
             .collect())
     }
 }
+
+/// Verification hook H5 (`--cfg nextest_verif`): a plain-data view of the
+/// `std::process::Command` built by `TestInstance::make_command` (and hence by
+/// `TestCommand::new`, `create_command`, `EnvironmentMap::apply_env`, `apply_package_env` and
+/// `apply_ld_dyld_env`).
+#[cfg(nextest_verif)]
+pub mod verif_command {
+    use super::*;
+
+    /// Program, arguments, working directory and explicitly assigned environment of a command.
+    #[derive(Clone, Debug)]
+    pub struct CommandView {
+        /// `Command::get_program`.
+        pub program: OsString,
+        /// `Command::get_args` (without the program).
+        pub args: Vec<OsString>,
+        /// `Command::get_current_dir`.
+        pub cwd: Option<PathBuf>,
+        /// `Command::get_envs`: `(key, Some(value))` for an assignment, `(key, None)` for a
+        /// removal. Variables inherited from the current process are not listed.
+        pub envs: Vec<(OsString, Option<OsString>)>,
+    }
+
+    /// Runs the real `TestInstance::make_command` and returns what it built.
+    pub fn make_command(
+        instance: &TestInstance<'_>,
+        ctx: &TestExecuteContext<'_>,
+        test_list: &TestList<'_>,
+        extra_args: &[String],
+    ) -> CommandView {
+        let mut cmd = instance.make_command(ctx, test_list, extra_args);
+        let command = cmd.command_mut();
+        CommandView {
+            program: command.get_program().to_owned(),
+            args: command.get_args().map(|a| a.to_owned()).collect(),
+            cwd: command.get_current_dir().map(|p| p.to_owned()),
+            envs: command
+                .get_envs()
+                .map(|(k, v)| (k.to_owned(), v.map(|v| v.to_owned())))
+                .collect(),
+        }
+    }
+}
